@@ -559,6 +559,12 @@ func initReflect(i *reflectIniter) {
 		"Out":       newMethod(i.reflectPackage, rtypeType, "Out"),
 		"Size":      newMethod(i.reflectPackage, rtypeType, "Size"),
 		"String":    newMethod(i.reflectPackage, rtypeType, "String"),
+		"Comparable":   newMethod(i.reflectPackage, rtypeType, "Comparable"),
+		"IsVariadic":   newMethod(i.reflectPackage, rtypeType, "IsVariadic"),
+		"Implements":   newMethod(i.reflectPackage, rtypeType, "Implements"),
+		"Method":       newMethod(i.reflectPackage, rtypeType, "Method"),
+		"Name":         newMethod(i.reflectPackage, rtypeType, "Name"),
+		"AssignableTo": newMethod(i.reflectPackage, rtypeType, "AssignableTo"),
 	}
 	i.errorMethods = methodSet{
 		"Error": newMethod(i.reflectPackage, errorType, "Error"),
